@@ -914,6 +914,8 @@ def shadow_mh(d):
         return _shadow("WeightedStringHandler", probability_matrix=np.array(p[0]), alphabet=list(p[1]))
     if name == "IntervalRange":
         return _shadow("IntervalRange", minimum_length=p[0], maximum_length=p[1], maximum_top_limit=p[2])
+    if name == "PassThrough":
+        return _shadow("PassThrough")  # a user-defined refinement that admits every value of the base type
     raise ValueError(name)
 
 
